@@ -39,7 +39,7 @@ def examples(tier):
 
 @st.composite
 def strategy(draw, tier="quick"):
-    g = draw(gen.grammar(regimes=REGIMES, symbols=True, **gen.size(tier)))
+    g = draw(gen.grammar(regimes=REGIMES, symbols=True, signed=True, **gen.size(tier)))
     return {
         "g": g,
         "perm": draw(st.sampled_from([0, 0, 1, 3, "rev"])),
